@@ -37,3 +37,10 @@ func init() {
 		Real:  clusterReal, Stub: clusterStub,
 		Assume: []string{"nothing is demanded for operations the client saw fail", "one bubble clock: all servers stamp with the same clock"}}
 }
+
+func init() {
+	props["C34"] = &propCfg{Engine: "cluster", Variants: []string{""}, Quick: 600, Thorough: 40000, Chunk: 25, QuickWall: 110, ThorWall: 1500,
+		Rule:  "each run = real master + one real volume server with a write signing key (expiry 2-60 s) and, in half the runs, a read key; the master issues tokens in Assign; uploads, deletes and reads are sent after a plan-chosen fake delay straddling the expiry (E-2..E+3 s and random), with the master's token, a fresh token, a token for another file, the sub-file suffix form, no token, a token signed with another key, alg=none, or garbage; oracle: accepted iff unexpired at the server's check (the expiry second itself may go either way), signed with the configured key and naming the target file; a rejected request leaves the stored blob unchanged, an accepted one takes effect; non-trivial = the fake clock moved; distinct = distinct abstract traces",
+		Real:  clusterReal, Stub: clusterStub,
+		Assume: []string{"token-shape enumeration (algorithms, malformed tokens) is input generation and only sampled", "one bubble clock: no skew between master and volume server; skew is not emulated"}}
+}
